@@ -66,6 +66,41 @@ func TestVerifC45(t *testing.T) {
 			out.Case(g, 8, a, b, vGeneric(uint8(a), uint8(b)))
 		}
 	}
+	// directed boundary grid: every pair / triple of powers of two and their neighbours (a helper
+	// with a width-specific fast path typically breaks exactly at 2^k, e.g. a == b == 2^32)
+	var edges []uint64
+	for _, k := range []uint{0, 1, 7, 8, 15, 16, 20, 31, 32, 33, 40, 47, 48, 62, 63} {
+		for _, d := range []int64{-1, 0, 1} {
+			edges = append(edges, uint64(int64(uint64(1)<<k)+d))
+		}
+	}
+	edges = append(edges, 0, ^uint64(0), ^uint64(0)-1, 1000000, 999999, 1000001, 1000000000000, 100)
+	divs := []uint64{0, 1, 2, 3, 100, 1000000, 1 << 31, 1 << 32, (1 << 32) + 1, 1 << 33, 1 << 63, ^uint64(0)}
+	for _, a := range edges {
+		for _, b := range edges {
+			out.Case(g, 64, a, b, vGeneric64(a, b))
+			r, o := ODiff(a, b)
+			out.Case(vSym("odiff"), a, b, vL(r, o))
+			mr, mo := Micros(a).Mul(Micros(b))
+			out.Case(vSym("mmul"), a, b, vL(uint64(mr), mo))
+			ar, ao := MicroAlgos{Raw: a}.MulMicros(Micros(b))
+			out.Case(vSym("mulmicros"), a, b, vL(ar.Raw, ao))
+			for _, c := range divs {
+				q, rm, ov := muldiv(a, b, c)
+				out.Case(vSym("muldiv"), a, b, c, vL(q, rm, ov))
+				out.Case(vSym("divvy"), b, c, a, vDivvy(b, c, a))
+			}
+		}
+	}
+	for _, a := range divs {
+		for _, b := range divs {
+			for _, c := range divs {
+				for _, d := range divs {
+					out.Case(vSym("mul2div"), a, b, c, d, vMul2div(a, b, c, d))
+				}
+			}
+		}
+	}
 	rnd := vNewRand(45)
 	n := vEnvInt("VERIF_C45_N", 20000)
 	for i := 0; i < n; i++ {
